@@ -14,7 +14,7 @@
 From Coq Require Import ZArith List Lia Bool.
 From LZ4V Require Import Gen.Consts Spec.BlockSpec Model.Mem Model.Fast Model.FastApi Model.FastStream Model.FrameC.
 From LZ4V Require Import Proofs.FastStreamMem Proofs.FastStreamProofs Proofs.FastStreamHist Proofs.FrameCExamples
-     Proofs.FrameCTheorems Proofs.FrameRoundTrip Proofs.BlkInst.
+     Proofs.FrameCTheorems Proofs.FrameRoundTrip Proofs.BlkInst Proofs.ParserBytesStream.
 Import ListNotations.
 Local Open Scope Z_scope.
 
@@ -43,7 +43,7 @@ Proof.
   unfold lorc_consistent in Gc. apply andb_true_iff in Gc. destruct Gc as [Gx Gh].
   apply list_eqb_eq in Gx. apply list_eqb_eq in Gh.
   destruct (Hst n) as (O1 & O2 & O3 & O4 & O5 & O6 & O7).
-  intros H. destruct (blk_out_some _ _ _ H) as (Hp & -> & _).
+  intros H. destruct (blk_out_some _ _ _ H) as (Hp & ->).
   pose proof (continue_decodes (lo_m (st n)) (lo_c (st n)) (lo_src (st n)) (len x) (len x - 1) (fast_accel level) (lo_H (st n))
                 O1 O2 O3 O4 ltac:(lia) O5 O6
                 (prelude_hist (lo_m (st n)) (lo_c (st n)) (lo_src (st n)) (len x) (lo_H (st n)) O2 O4 ltac:(lia) ltac:(lia) O7)) as HD.
@@ -53,11 +53,15 @@ Proof.
   rewrite Gh. unfold lastZ, FC_64KB. exact HV.
 Qed.
 
-Theorem blk_fast_linked_bytes st level : blk_bytes (blk_fast_linked st level).
+Theorem blk_fast_linked_bytes st level : (forall n, lorc_ok (st n)) -> blk_bytes (blk_fast_linked st level).
 Proof.
-  intros n h x c. unfold blk_fast_linked. cbv zeta.
-  destruct (blk_guard x && (len x <=? LZ4_MAX_INPUT_SIZE) && lorc_consistent (st n) h x); [|discriminate].
-  intros H. destruct (blk_out_some _ _ _ H) as (_ & _ & Hb). exact Hb.
+  intros Hst n h x c. unfold blk_fast_linked. cbv zeta.
+  destruct (blk_guard x && (len x <=? LZ4_MAX_INPUT_SIZE) && lorc_consistent (st n) h x) eqn:G; [|discriminate].
+  apply andb_true_iff in G. destruct G as [G Gc]. apply andb_true_iff in G. destruct G as [G Gm].
+  destruct (guard_facts x G) as (Gb & Gn). apply Z.leb_le in Gm.
+  destruct (Hst n) as (O1 & O2 & O3 & O4 & O5 & O6 & O7).
+  intros H. destruct (blk_out_some _ _ _ H) as (Hp & ->).
+  apply fast_continue_bytes; try assumption. lia.
 Qed.
 
 Print Assumptions blk_fast_linked_contract.
